@@ -366,6 +366,12 @@ def run(ctx):
             rec = g.record("", rng.choice([1, 2, 3]))
             s = {"type": "array", "items": rec} if rng.random() < 0.5 else {"type": "map", "values": rec}
         kinds[want] = kinds.get(want, 0) + 1
+        # nested records declared with "type": "error" (same meaning as "record" for every operation)
+        if rng.random() < 0.35:
+            for p_, n_, ns_, top_ in sg.named_defs(s):
+                if n_.get("type") == "record" and p_ != () and rng.random() < 0.5:
+                    n_["type"] = "error"
+                    kinds["error-records"] = kinds.get("error-records", 0) + 1
         schemas.append(s)
     nsplit = 0
     for s in schemas:
@@ -394,6 +400,19 @@ def run(ctx):
         ["n.C", "n.B"], [{"type": "enum", "name": "n.C", "symbols": ["X", "Y"]},
                          {"type": "record", "name": "n.B", "fields": [{"name": "c", "type": {"type": "array", "items": "n.C"}}]}],
         {"type": "record", "name": "n.A", "fields": [{"name": "b", "type": "n.B"}, {"name": "c2", "type": ["null", "C"]}]}))
+
+    err_whole = {"type": "record", "name": "n.Top", "fields": [
+        {"name": "e", "type": {"type": "error", "name": "Err", "fields": [
+            {"name": "code", "type": {"type": "enum", "name": "Code", "symbols": ["A", "B"]}},
+            {"name": "d", "type": {"type": "record", "name": "Detail", "fields": [{"name": "x", "type": "long"}]}}]}},
+        {"name": "again", "type": ["null", "Code"]}, {"name": "d2", "type": {"type": "array", "items": "n.Detail"}}]}
+    work.append((err_whole, [], None, None))
+    schemas.append(err_whole)
+    work.append((err_whole, ["n.Code", "n.Detail"],
+                 [{"type": "enum", "name": "n.Code", "symbols": ["A", "B"]}, {"type": "record", "name": "n.Detail", "fields": [{"name": "x", "type": "long"}]}],
+                 {"type": "record", "name": "n.Top", "fields": [
+                     {"name": "e", "type": {"type": "error", "name": "Err", "fields": [{"name": "code", "type": "n.Code"}, {"name": "d", "type": "Detail"}]}},
+                     {"name": "again", "type": ["null", "Code"]}, {"name": "d2", "type": {"type": "array", "items": "n.Detail"}}]}))
 
     for c in sg.NULL_NS_CORPUS:
         if isinstance(c, dict) and c.get("type") == "record":
